@@ -394,6 +394,9 @@ def parse_nuclide_str(nuclide: str) -> str:
     if len(alpha_components) != 2:
         raise NuclideStrError(original_input, "")
 
+    if alpha_components[0] == "" and alpha_components[1] == "":
+        raise NuclideStrError(original_input, "Element symbol is missing.")
+
     if alpha_components[0] == "":  # User inputted mass number first
         metastable_char, element = _process_metastable_element_str(alpha_components[1])
     else:  # User inputted element symbol first
